@@ -12,7 +12,7 @@ RULE = ("Inputs aimed at each parallel region: (a) 100..400 short sequences (k-m
         "(b) 20..99 sequences (tree-parallel merges), (c) 2..6 sequences of 500..2500 columns (forward/backward halves as "
         "tasks), (d) mixtures; for each input a reference run (n_threads=1, no delays) and 4..8 runs (quick; thorough up to 20) with thread counts "
         "from {1,2,3,4,7,8,16,32,64}, OpenMP environments (OMP_MAX_ACTIVE_LEVELS 1..3, OMP_WAIT_POLICY, OMP_DYNAMIC, "
-        "GOMP_SPINCOUNT) and a Hypothesis-drawn delay table (<= 16 entries: event kind, key modulus/residue, action none / "
+        "GOMP_SPINCOUNT, nested team sizes via OMP_NUM_THREADS lists, OMP_THREAD_LIMIT, OMP_PROC_BIND, OMP_SCHEDULE) and a Hypothesis-drawn delay table (<= 16 entries: event kind, key modulus/residue, action none / "
         "yield / 50us / 1ms / 10ms, how many matching events; total injected delay capped at 0.6 s per run) applied inside the guarded hook, plus one run of the library built without OpenMP. Oracle: "
         "(1) rows byte-identical to the reference, (2) same for the no-OpenMP build, (3) event-log invariants of every run: "
         "MERGE_END(child) precedes MERGE_BEGIN(parent) for both children of every node; for every DP step FWD_END and BWD_END "
@@ -35,6 +35,11 @@ def run_specs(draw):
         env["GOMP_SPINCOUNT"] = draw(st.sampled_from(["0", "1000", "100000"]))
     if draw(st.integers(0, 3)) == 0:
         env["OMP_DYNAMIC"] = draw(st.sampled_from(["true", "false"]))
+    if draw(st.integers(0, 4)) == 0:
+        # sizes of nested teams / a global cap below the request / thread placement
+        k = draw(st.sampled_from(["OMP_NUM_THREADS", "OMP_THREAD_LIMIT", "OMP_PROC_BIND", "OMP_SCHEDULE"]))
+        env[k] = draw(st.sampled_from({"OMP_NUM_THREADS": ["4,2", "2,4", "8,2,2", "3"], "OMP_THREAD_LIMIT": ["2", "3", "5"],
+                                       "OMP_PROC_BIND": ["true", "close", "spread", "false"], "OMP_SCHEDULE": ["dynamic,1", "guided", "static,1"]}[k]))
     nd = draw(st.integers(0, 16))
     delays = []
     for _ in range(nd):
